@@ -119,6 +119,9 @@ class Gen:
         ctx = None
         if ctx_ok and self.r.random() < 0.12:
             ctx = (self.r.choice(CTX_KINDS), self.intlike())
+        if ctx is None and self.r.random() < 0.04:
+            # an operation that can head a switch, used as a plain statement
+            return ("op", self.r.choice(["ProcessSpecial", "message_Menu", "main_EnterAdventure", "SwitchValue"]), [("int", n), self.intlike()], None)
         return ("op", f"op_{n}", [self.param() for _ in range(self.r.randint(0, 3))], ctx)
 
     def asg(self):
@@ -148,7 +151,10 @@ class Gen:
             return ("asg", ("flag_ResetDungeonResult", ()))
         if c == 10:
             return ("asg", ("flag_SetAdventureLog", (n,)))
-        return ("asg", ("flag_SetDungeonMode", (vi, n)))
+        # the mode: any number, one of the four mode numbers, or the name of a mode constant
+        from vf.env import DM_NAMES
+        mode = self.r.choice([n, n, ("int", self.r.randint(0, 3)), ("const", self.r.choice(DM_NAMES)), ("const", "CONST_" + str(self.r.randint(0, 3)))])
+        return ("asg", ("flag_SetDungeonMode", (vi, mode)))
 
     def cond(self):
         n = ("int", self.uid())
@@ -210,6 +216,9 @@ class Gen:
             # the kinds of case headers a switch of that kind takes (regular cases / menu cases)
             c = self.r.randint(3, 4) if swsig[0] in self.MENU_SWITCHES else self.r.randint(0, 2)
         if c == 0:
+            if swsig is not None and swsig[0] == "SwitchDungeonMode" and self.r.random() < 0.6:
+                from vf.env import DM_NAMES
+                return ("case", ("Case", (self.r.choice([("int", self.r.randint(0, 3)), ("const", self.r.choice(DM_NAMES))]),)))
             return ("case", ("Case", (n,)))
         if c == 1:
             return ("case", ("CaseValue", (("int", self.r.randint(0, 10)), n)))
@@ -219,7 +228,7 @@ class Gen:
             if self.r.random() < 0.3:
                 return ("case", ("CaseMenu", (("lang", (("english", f"menu{n[1]}"), ("german", "x")),),)))
             return ("case", ("CaseMenu", (("str", f"menu{n[1]}"),)))
-        return ("case", ("CaseMenu2", (n,)))
+        return ("case", ("CaseMenu2", (self.r.choice([n, n, n, ("int", 0), ("const", "CONST_1")]),)))
 
     def newlabel(self):
         if getattr(self, "in_macro", False) and getattr(self, "_lbl_macro", None) is not None:
@@ -399,7 +408,7 @@ class Gen:
             if k == 0:
                 hs.append(("def", i))
             else:
-                tgt = self.r.choice([("int", self.r.randint(0, 300)), ("const", "ACTOR_" + str(self.r.randint(0, 9)))])
+                tgt = self.r.choice([("int", self.r.randint(0, 300)), ("int", 0), ("const", "ACTOR_" + str(self.r.randint(0, 9)))])
                 hs.append(("for", i, self.r.choice(CTX_KINDS), tgt))
         return hs
 
